@@ -70,6 +70,7 @@ def run(ctx, col, tier):
              "-n<=key<0 -> key+n, 0<=key<n -> key, key>=n -> IndexError (a handle with a negative position starts a traversal at a key that is not in the "
              "children index, or at the 'no parent' key -1)", floor=8, exhaustive=True)
     col.guard(_idxnorm, ctx, col, ("swcgeom.core.tree.Tree.__getitem__",))
+    col.guard(start_guard, ctx, col)
     from ..rules import rootpos as _rootpos
     _rootpos.run(ctx, col, ('swcgeom.core.tree', 'swcgeom.core.swc_utils.base'))
     col.rule("R-CG", "no strong call-graph cycle is reachable from the traversal entry points "
@@ -273,3 +274,52 @@ def forwarders(ctx, col):
     col.text_group(R, tr.qualname, tr, [
         ("dispatches to the DFS kernel with all options and returns its result", ["return _traverse_dfs(topology, **kwargs)"], "dispatch")],
         fixed=("topology", "kwargs", "_traverse_dfs"))
+
+
+
+def start_guard(ctx, col):
+    """A range check on the start node accepts every row 0..n-1: a test that raises for the last row (or for row 0) makes part of the tree un-traversable."""
+    from ..fold import Folder, Unfoldable
+    from ..rules import tables
+    col.rule("R-STARTGUARD", "every node of the tree can be a start node: a range check on the start index in the traversal entry points (folded with n = 5 nodes, "
+             "4 edges) raises for no index in 0..n-1 (zero guards expected today; any guard that is added is evaluated)", floor=1, exhaustive=True)
+    n_guards = 0
+    for q in ("swcgeom.core.tree.Tree.traverse", "swcgeom.core.tree.Tree.Node.traverse", "swcgeom.core.swc_utils.base.traverse", "swcgeom.core.swc_utils.base._traverse_dfs"):
+        d = ctx.repo.get_def(q)
+        for st in own_nodes(d):
+            if not (isinstance(st, ast.If) and any(isinstance(x, ast.Raise) for x in st.body)):
+                continue
+            names_ = {x.id for x in ast.walk(st.test) if isinstance(x, ast.Name)}
+            start = next((p_ for p_ in ("root", "idx", "start", "key") if p_ in names_), None)
+            if start is None:
+                continue
+            n_guards += 1
+
+            def term(nd):
+                s_ = norm_src(nd)
+                if s_ in ("self.number_of_nodes()", "len(self)", "len(self.id())", "self.id().shape[0]", "len(topology[0])", "len(ids)"):
+                    return "__n"
+                if s_ == "self.number_of_edges()":
+                    return "__e"
+                return None
+            e, _hits = tables.substitute(st.test, term)
+            bad = und = None
+            for v in (0, 1, 4):
+                try:
+                    if bool(Folder(ctx.repo, d.module, None, {start: v, "__n": 5, "__e": 4}).eval(e)):
+                        bad = v
+                        break
+                except Unfoldable as x:
+                    und = str(x)
+                    break
+            what = f"{d.name}: the range check on `{start}` admits every row 0..n-1"
+            if bad is not None:
+                col.bad("R-STARTGUARD", d.qualname, d.loc(st), what,
+                        f"`if {norm_src(st.test)}: raise ...` rejects start index {bad} of a 5-node tree: that node (for {bad} = n-1 the last row, often a tip; in a one-node tree the root itself) "
+                        f"cannot be traversed from", stmt=f"startguard:{start}", definite=True)
+            elif und is not None:
+                col.unresolved("R-STARTGUARD", d.qualname, d.loc(st), what, f"cannot fold the test: {und}", stmt=f"startguard:{start}")
+            else:
+                col.ok("R-STARTGUARD", d.qualname, d.loc(st), what, norm_src(st.test)[:80], stmt=f"startguard:{start}")
+    if not n_guards:
+        col.ok("R-STARTGUARD", "startguard-scan", "", "no range check on the start node in the traversal entry points", "4 functions scanned", stmt="startguard-scan")
